@@ -136,10 +136,15 @@ def form_events(tf, ctx):
   return evs
 
 
-def cdf_events(tf, tfl, ctx, rng, n, with_fn=True):
+def cdf_events(tf, tfl, ctx, rng, n, with_fn=True, trained=0):
+  """trained > 0: that many of the layers with a learned input scaling are first driven by real optimizer steps against
+  the monotonicity (the scaling is kept non-negative by the layer's own weight constraint, which the optimizer
+  re-applies); the recorded scaling is then the layer's, whatever it is."""
   from tensorflow_lattice.python import conditional_cdf
+  import tf_keras as keras
   evs = []
-  for j in range(n):
+  for j in range(n + trained):
+    hostile = j >= n
     sf = int(rng.choice([1, 1, 2]))
     nin = sf * int(rng.integers(1, 3))
     units = sf * int(rng.integers(1, 3))
@@ -147,6 +152,8 @@ def cdf_events(tf, tfl, ctx, rng, n, with_fn=True):
     act = "relu6" if j % 2 == 0 else "sigmoid"
     red = ["mean", "geometric_mean", "none"][j % 3]
     scaling_type = ["fixed", "learned_shared", "learned_per_input"][(j // 3) % 3]
+    if hostile:
+      scaling_type = ["learned_shared", "learned_per_input"][j % 2]
     try:
       layer = tfl.layers.CDF(num_keypoints=nk, units=units, activation=act, reduction=red, sparsity_factor=sf,
                              input_scaling_type=scaling_type, input_scaling_init=float(rng.integers(1, 9)) / 2)
@@ -168,6 +175,20 @@ def cdf_events(tf, tfl, ctx, rng, n, with_fn=True):
     base = rng.integers(-96, 97, size=(4, nin)) / 16.0
     up = base + rng.integers(0, 33, size=(4, nin)) / 16.0            # componentwise larger: pairs for monotonicity
     X = np.concatenate([base, up]).astype(np.float32)
+    if hostile:
+      opt = keras.optimizers.SGD(learning_rate=float(10 ** rng.uniform(0, 2)))
+      for _ in range(int(rng.integers(1, 5))):
+        with tf.GradientTape() as tape:
+          loss = tf.reduce_mean(layer(tf.constant(up.astype(np.float32))) - layer(tf.constant(base.astype(np.float32))))
+        tv = layer.trainable_variables
+        grads = [g if g is not None else tf.zeros_like(v) for g, v in zip(tape.gradient(loss, tv), tv)]
+        opt.apply_gradients(zip(grads, tv))
+      kernel = np.round(layer.kernel.numpy() * 16) / 16          # back on the trace's 1/16 grid
+      layer.kernel.assign(kernel.astype(np.float32))
+      sc = np.asarray(layer.input_scaling).astype(np.float64)
+      sc = np.round(np.clip(sc, -64, 64) * 16) / 16
+      layer.input_scaling.assign(sc.astype(np.float32))
+      scale = sc.reshape(-1) if scaling_type == "learned_per_input" else np.full(nin, float(sc.reshape(-1)[0]))
     out = layer(tf.constant(X)).numpy()
     out = out.reshape(len(X), -1)
     fn_out = []
@@ -195,7 +216,8 @@ def run(ctx):
               "parameters of magnitude up to 50, 2-6 keypoints, units 1-2, inputs at both ends, inside, outside and at the "
               "missing value, with return_derived_parameters=True; Form: every documented call form incl. omitted "
               "interior keypoint parameters; Cdf: CDF layers over activations, reductions, sparsity factors, scaling "
-              "types with non-negative scaling and componentwise ordered input pairs")
+              "types with non-negative scaling and componentwise ordered input pairs, plus layers with a learned scaling "
+              "after real optimizer steps against the monotonicity")
   ctx.model("MC_ConditionalFns", "Cond_q.cfg")
   ctx.model("MC_ConditionalFns", "Cond_known.cfg", expect_violation="InvNoneFormAccepted",
             note="self-test: with num_keypoints = 0 for omitted interior parameters (the code before the fix: commit) no "
@@ -204,7 +226,7 @@ def run(ctx):
   rng = np.random.default_rng(ctx.seed + 1515)
   q = ctx.quick
   events = pwl_fn_events(tf, tfl, ctx, rng, 128 if q else 2000, with_layer=False) + form_events(tf, ctx) \
-      + cdf_events(tf, tfl, ctx, rng, 60 if q else 900, with_fn=False)
+      + cdf_events(tf, tfl, ctx, rng, 60 if q else 900, with_fn=False, trained=24 if q else 160)
   log("  %d events" % len(events))
   ctx.sample({k: events[0].get(k) for k in ("ev", "c", "deltas", "kern", "xs", "outs", "den", "oden")})
   ctx.validate("TraceConditional", events)
